@@ -401,6 +401,15 @@ def gen_pipeline(tier, seed):
         cases.append({"fam": "corpus", "cf": False, "tog": False, "reg": e["reg"], "settings": base, "roots": [e["root"]],
                       "model": {"res": "", "c01": True, "c02": True, "c03": True, "teq_sound": True}, "name": e["name"],
                       "prog": {"defs": [], "cfgs": []}, "sroots": [], "perms": [], "retain": [0]})
+    # closed sub-registries of real chain metadata (scale-info's retain around seeded id choices), family G6
+    meta = os.path.join(REPO, "artifacts", "polkadot_metadata.scale")
+    if os.path.exists(meta):
+        subprocess.run([VH, "polkadot", meta, os.path.join(wd, "polkadot.ndjson"), str(seed), str(120 if tier == "quick" else 1200), "30"], check=True)
+        for e in read_ndjson(os.path.join(wd, "polkadot.ndjson")):
+            cases.append({"fam": "G6", "cf": False, "tog": False, "reg": e["reg"], "settings": base, "roots": [0],
+                          "model": {"res": "", "c01": True, "c02": True, "c03": True, "teq_sound": True}, "name": e["name"],
+                          "prog": {"defs": [], "cfgs": []}, "sroots": [], "perms": [], "retain": [0]})
+        fam_counts["G6"] = sum(1 for c in cases if c["fam"] == "G6")
     recs = []
     for i, c in enumerate(cases):
         runs = [{"reg": c["reg"], "settings": c["settings"], "dedup": True, "composites": True, "teq": [], "repeat": 0, "retain": c["retain"]}]
@@ -453,6 +462,115 @@ def gen_pipeline(tier, seed):
     return out
 
 
+T3_SETTINGS = {"root": "types", "alloc_std": True, "alloc": {"k": "path", "lead": True, "segs": ["std"], "args": []}, "docs": True, "codec": True,
+               "has_compact": True, "compact": {"k": "path", "lead": True, "segs": ["parity_scale_codec", "Compact"], "args": []},
+               "has_bits": True, "bits": {"k": "path", "lead": False, "segs": ["crate", "DecodedBits"], "args": []},
+               "has_compact_as": False, "compact_as": {"k": "path", "lead": True, "segs": ["parity_scale_codec", "CompactAs"], "args": []},
+               "derive_calls": [{"op": "all_d", "path": {"k": "path", "lead": False, "segs": ["x"], "args": []},
+                                 "items": ["::parity_scale_codec::Encode", "::parity_scale_codec::Decode"], "recursive": False}],
+               "subs": []}
+
+
+def t3_compilable(reg):
+    """tool domain of the compile tier: types whose std / codec trait impls do not exist are left out
+    (char has no codec impl; BTreeMap/BTreeSet/BinaryHeap need Ord keys - only primitive keys are kept; 256-bit integers)"""
+    for e in reg:
+        d = e["def"]
+        if d["k"] == "prim" and d["p"] in ("char", "u256", "i256"):
+            return False
+        if e["path"] in (["BTreeMap"], ["BTreeSet"], ["BinaryHeap"]):
+            k = e["params"][0]["ty"]
+            if k < 0 or reg[k]["def"]["k"] != "prim" or reg[k]["def"]["p"] == "str" and False:
+                return False
+    return True
+
+
+def t3_pipeline(tier, seed):
+    """compile-and-round-trip tier: emitted modules are compiled by rustc with parity-scale-codec derives and fed valid encodings"""
+    g = gen_pipeline(tier, seed)
+    key = f"t3-{tree_hash()}-{tier}-{seed}"
+    cpath = os.path.join(WORK, "cache", key + ".json")
+    if os.path.exists(cpath):
+        return json.load(open(cpath))
+    wd = workdir("t3")
+    rnd = random.Random(seed)
+    ok_cases = {v["case"] for v in g["verdicts"] if v["gen"] == "ok" and v["cf"] and v["fam"] not in ("G7", "G8", "G8b")}
+    cases = [c for c in read_ndjson(g["cases_path"]) if c["case"] in ok_cases and t3_compilable(c["runs"][0]["reg"])]
+    rnd.shuffle(cases)
+    cases = cases[: 120 if tier == "quick" else 1500]
+    recs = []
+    for i, c in enumerate(cases):
+        recs.append({"case": i, "fam": c["fam"], "orig": c["case"], "runs": [{"reg": c["runs"][0]["reg"], "settings": T3_SETTINGS}]})
+    write_ndjson(os.path.join(wd, "cases.ndjson"), recs)
+    crate = os.path.join(wd, "crate")
+    shutil.copytree(os.path.join(ROOT, "harness", "t3_template"), crate, ignore=shutil.ignore_patterns("target"))
+    r = subprocess.run([VH, "emit", os.path.join(wd, "cases.ndjson"), os.path.join(crate, "src", "cases.rs"), os.path.join(wd, "manifest.ndjson"), "2"],
+                       stdout=subprocess.PIPE, stderr=subprocess.STDOUT, text=True)
+    if r.returncode != 0:
+        raise ToolError("vh emit failed: " + r.stdout[-1000:])
+    manifest = {m["case"]: m for m in read_ndjson(os.path.join(wd, "manifest.ndjson"))}
+    failed_cases = {}
+    src_path = os.path.join(crate, "src", "cases.rs")
+    for attempt in range(6):
+        b = subprocess.run(["cargo", "build", "--release", "--offline", "--message-format=short"], cwd=crate, stdout=subprocess.PIPE, stderr=subprocess.STDOUT, text=True,
+                           env=dict(os.environ, CARGO_NET_OFFLINE="true"))
+        if b.returncode == 0:
+            break
+        # attribute rustc errors to cases by line number, drop those modules and rebuild
+        bad = {}
+        for m in re.finditer(r"src/cases\.rs:(\d+):\d+: error(?:\[(E\d+)\])?", b.stdout):
+            ln, code = int(m.group(1)), m.group(2) or "error"
+            for cid, mf in manifest.items():
+                if mf.get("emitted") and mf["first_line"] <= ln <= mf["last_line"]:
+                    bad.setdefault(cid, set()).add(code)
+        if not bad:
+            raise ToolError("T3: rustc failed without attributable errors:\n" + b.stdout[-2000:])
+        lines = open(src_path).read().split("\n")
+        for cid, codes in bad.items():
+            failed_cases[cid] = sorted(codes)
+            mf = manifest[cid]
+            for ln in range(mf["first_line"] - 1, mf["last_line"]):
+                lines[ln] = ""          # keep line numbers stable
+            lines = [l for l in lines]
+        text = "\n".join(lines)
+        for cid in bad:
+            text = text.replace(f"    case_{cid}::run();", "")
+        open(src_path, "w").write(text)
+    else:
+        raise ToolError("T3: rustc still failing after removing the offending modules")
+    run = subprocess.run([os.path.join(crate, "target", "release", "t3")], stdout=subprocess.PIPE, stderr=subprocess.PIPE, text=True)
+    results = {}
+    for l in run.stdout.splitlines():
+        if l.startswith("{"):
+            x = json.loads(l)
+            results[(x["case"], x["k"])] = x
+    obs = []
+    for rcd in recs:
+        mf = manifest.get(rcd["case"], {"emitted": False, "checks": []})
+        compiled = mf.get("emitted", False) and rcd["case"] not in failed_cases
+        checks = []
+        for ch in mf["checks"]:
+            x = results.get((rcd["case"], ch["k"]))
+            if compiled and x is None:
+                x = {"decode": False, "rest": -1, "same": False}    # the binary died before reaching this check
+            if not compiled:
+                x = {"decode": False, "rest": -1, "same": False}
+            checks.append({"id": ch["id"], "k": ch["k"], "bytes": ch["bytes"], "decode": x["decode"], "rest": x["rest"], "same": x["same"]})
+        obs.append({"case": rcd["case"], "input": {"reg": rcd["runs"][0]["reg"], "fam": rcd["fam"]}, "emitted": mf.get("emitted", False), "compiled": compiled,
+                    "errors": failed_cases.get(rcd["case"], []), "checks": checks})
+    write_ndjson(os.path.join(wd, "obs.ndjson"), obs)
+    shutil.rmtree(os.path.join(crate, "target"), ignore_errors=True)
+    verdicts, summ = tv_parallel(os.path.join(SPEC, "tv", "TV_T3.tla"), os.path.join(SPEC, "tv", "TV_T3.cfg"), os.path.join(wd, "obs.ndjson"), wd, nproc=8, workers=2)
+    if any(v["disagree"] for v in verdicts):
+        raise ToolError("T3: scale-encode produced bytes that the specification's decoder rejects (oracle disagreement) - see work/t3/obs.ndjson")
+    for v in verdicts:
+        v["fam"] = recs[v["case"]]["fam"]
+    out = {"verdicts": verdicts, "tv": summ, "cases": len(recs), "checks": sum(v["nchecks"] for v in verdicts), "recs_path": os.path.join(WORK, "cache", key + ".cases.ndjson")}
+    shutil.copy(os.path.join(wd, "cases.ndjson"), out["recs_path"])
+    json.dump(out, open(cpath, "w"))
+    return out
+
+
 def account(res, prop, verdicts, cases_by_id, prefixes, findings):
     """Split the failed predicates of `prop` into known findings and violations."""
     sites = {f["site"]: f for f in findings if f["property"] == prop}
@@ -495,6 +613,19 @@ def check_genprop(prop, prefixes, nontrivial, rule, tier, seed, domain=lambda v:
     res.nontrivial = sum(1 for v in verdicts if nontrivial(v))
     res.drift = sum(1 for v in verdicts if v["drift"])
     res.extra.update({"families": g["fam_counts"], "design_level": g["design"], "mc_actions": g["mc_actions"], "e0_programs": g["e0"]})
+    if prop in ("C01", "C02") and (tier == "thorough" or os.environ.get("VERIF_T3") == "1"):
+        t3 = t3_pipeline(tier, seed)
+        res.add_mc(t3["tv"])
+        t3cases = None
+
+        def t3_case(cid):
+            nonlocal t3cases
+            if t3cases is None:
+                t3cases = {c["case"]: c for c in read_ndjson(t3["recs_path"])}
+            return t3cases[cid]
+        account(res, prop, t3["verdicts"], t3_case, prefixes, load_findings())
+        res.extra["compile_tier"] = {"modules_compiled_by_rustc": sum(1 for v in t3["verdicts"] if v["compiled"]), "modules": t3["cases"],
+                                     "byte_strings_round_tripped": t3["checks"]}
     never = [a for a, n in g["mc_actions"].items() if n == 0]
     if never:
         res.extra["vacuity_warning"] = f"actions never taken in MC: {never}"
@@ -1120,6 +1251,75 @@ def replay(prop, path):
     return 0
 
 
+def selftest():
+    """Demonstrates the binding between specification and code: recorded traces are accepted as they are and rejected
+    when one recorded field is corrupted or one hook event is removed."""
+    harness_build()
+    wd = workdir("selftest")
+    ok = True
+
+    def tv_one(module, obs):
+        write_ndjson(os.path.join(wd, "o.ndjson"), obs)
+        out = tlc_run(os.path.join(SPEC, "tv", module), os.path.join(SPEC, "tv", module.replace(".tla", ".cfg")), os.path.join(wd, module + ".out"),
+                      os.path.join(wd, "md"), workers=1, env={"OBS": os.path.join(wd, "o.ndjson")}, timeout=600)
+        tlc_summary(out)
+        return tlc_lines(out, "V ")
+
+    def expect(name, cond):
+        nonlocal ok
+        print(("ok   " if cond else "FAIL ") + name)
+        ok = ok and cond
+
+    # generator + de-duplication traces: the Foo family of the G2p program, registered by the environment model through MC_Gen
+    out = tlc_run(os.path.join(SPEC, "mc", "MC_Gen.tla"), os.path.join(SPEC, "mc", "MC_Gen_G1c.cfg"), os.path.join(wd, "mc.out"), os.path.join(wd, "mdm"), workers=4, timeout=600)
+    cases = tlc_lines(out, "CASE ")
+    c = [x for x in cases if any(e["path"] == ["m", "Q"] for e in x["reg"])][0]
+    rec = {"case": 0, "fam": "G1c", "cf": c["cf"], "tog": c["tog"], "model": c["model"], "prog": c["prog"], "sroots": c["sroots"], "perms": [],
+           "runs": [{"reg": c["reg"], "settings": c["settings"], "dedup": True, "composites": True, "teq": [], "repeat": 0, "retain": c["retain"]}]}
+    write_ndjson(os.path.join(wd, "c.ndjson"), [rec])
+    harness_run("gen", os.path.join(wd, "c.ndjson"), os.path.join(wd, "obs.ndjson"), jobs=1)
+    o = read_ndjson(os.path.join(wd, "obs.ndjson"))[0]
+    v = tv_one("TV_Gen.tla", [o])[0]
+    expect("generator trace accepted as recorded", not v["rejected"] and not v["drift"])
+    o2 = json.loads(json.dumps(o))
+    evs = o2["runs"][0]["gen"]["events"]
+    k = [i for i, e in enumerate(evs) if e.get("out") == "keep"][0]
+    evs[k]["out"] = "insert"
+    v = tv_one("TV_Gen.tla", [o2])[0]
+    expect("generator trace with one visit outcome flipped (keep -> insert) is rejected", v["rejected"])
+    o3 = json.loads(json.dumps(o))
+    del o3["runs"][0]["gen"]["events"][k]
+    v = tv_one("TV_Gen.tla", [o3])[0]
+    expect("generator trace with one visit event removed (hook disabled) is rejected", v["rejected"])
+    o4 = json.loads(json.dumps(o))
+    it = o4["runs"][0]["gen"]["module"]["mods"][0]["mods"][0]["items"][0]
+    it["fields"][0]["ty"] = {"k": "path", "lead": True, "segs": ["core", "primitive", "i64"], "args": []}
+    v = tv_one("TV_Gen.tla", [o4])[0]
+    expect("projected module with one field type corrupted: drift reported and Faithful fails", v["drift"] and any(x.startswith("C0") for x in v["failed"]))
+    v = tv_one("TV_Dedup.tla", [o])[0]
+    expect("de-duplication trace accepted as recorded", not v["rejected"] and not v["drift"])
+    o5 = json.loads(json.dumps(o))
+    g = [i for i, e in enumerate(o5["runs"][0]["dedup"]["events"]) if e["ev"] == "group"]
+    del o5["runs"][0]["dedup"]["events"][g[-1]]
+    v = tv_one("TV_Dedup.tla", [o5])[0]
+    expect("de-duplication trace with one group event removed is rejected", v["rejected"])
+    # formatter
+    write_ndjson(os.path.join(wd, "f.ndjson"), [{"case": 0, "s": [ord(ch) for ch in "a{b:(c,d),e:<f,g>}"]}])
+    harness_run("fmt", os.path.join(wd, "f.ndjson"), os.path.join(wd, "fobs.ndjson"), jobs=1)
+    fo = read_ndjson(os.path.join(wd, "fobs.ndjson"))[0]
+    v = tv_one("TV_C15.tla", [fo])[0]
+    expect("formatter trace accepted as recorded", v["ok"] and not v["drift"])
+    fo2 = json.loads(json.dumps(fo))
+    fo2["events"][3]["indent"] += 1
+    v = tv_one("TV_C15.tla", [fo2])[0]
+    expect("formatter trace with one recorded indent changed is rejected (drift)", v["drift"])
+    fo3 = json.loads(json.dumps(fo))
+    fo3["out"] = fo3["out"][:5] + [120] + fo3["out"][5:]
+    v = tv_one("TV_C15.tla", [fo3])[0]
+    expect("formatter output with one inserted letter violates the strip predicate", not v["ok"])
+    return 0 if ok else 2
+
+
 def selfcheck():
     """setup: parse every specification module with SANY."""
     bad = 0
@@ -1141,6 +1341,12 @@ def selfcheck():
 def main():
     if len(sys.argv) >= 2 and sys.argv[1] == "selfcheck":
         return selfcheck()
+    if len(sys.argv) >= 2 and sys.argv[1] == "selftest":
+        try:
+            return selftest()
+        except ToolError as e:
+            log("TOOL ERROR:", e)
+            return 2
     if len(sys.argv) < 3 or sys.argv[1] not in ("check", "replay"):
         print("usage: verif.py check <property> [--tier quick|thorough] | replay <property> <file>")
         return 2
